@@ -136,34 +136,54 @@ def seed_layer():
                                   '//?/UNC/', '//?/UNC/a', '//./', 'c:', 'c:/', '/', '//', '\\\\', '[c-\\z-ba]', '[a-[:alpha:][:digit:]]', '!(', '!()', '!(!(!(a)))',
                                   '*(*(*(*(a))))', '{a,b', '{', '}', '~', '~/', '\\N{', '\\x', '\\u12', '\\777', '[\\', '[\\]', '[]]', '[!]', '[^]', '[]-]', '[--]',
                                   '[a-]', '[-a]', '@(a|b|)', '@(|)', '@(a\\', '?(a|b', '\\', 'a\\', '\\\\', '***/***', '**/**/**', '!a', '-a', '!(a)!(b)!(c)']
+    for d in ('//?/C:/', '//?/UNC/h/s/', '//host/share/', 'c:/', '//./c:/', '//?/GLOBAL/UNC/h/s/'):
+        for ins in ('(', '[', '+', '*', ')', '{', '|', '?x', 'a)b', '[a-', '.'):
+            texts.append(d.replace('h/', 'h' + ins + '/', 1) if 'h/' in d else d + ins)
+            texts.append(d + 'x' + ins)
+    texts += ['\\400', '\\477', '\\1', '\\18', '\\x7', '\\x7b', '\\N{DIGIT ONE}', '\\N{nope}', '\\U0010ffff', '\\U00110000', '\\u00e9']
     bad = []
     n = 0
 
-    def run(desc, fn):
+    def allowed(nm, ex, text, raw, pathlib_call):
+        """A documented error is only acceptable in the situation it is documented for."""
+        t = text if isinstance(text, str) else text.decode('latin-1')
+        if nm == 'PatternLimitException':
+            return True
+        if nm in ('SyntaxError', 'LookupError', 'KeyError'):
+            return raw and '\\' in t                 # undecodable RAWCHARS escape
+        if nm == 'ValueError':
+            return pathlib_call and ('relative' in str(ex) or 'forced' in str(ex))
+        return False                                     # TypeError: the seeds never mix str and bytes
+
+    def run(desc, fn, text='', raw=False, pathlib_call=False):
         nonlocal n
         n += 1
         try:
             fn()
         except Exception as ex:  # noqa: BLE001
             nm = type(ex).__name__
-            if nm in DOCUMENTED:
+            if allowed(nm, ex, text, raw, pathlib_call):
                 return
             bad.append((desc, f'{nm}: {ex}'))
-    fsets_f = [0, F.EXTMATCH, F.EXTMATCH | F.NEGATE | F.SPLIT | F.BRACE, F.EXTMATCH | F.FORCEWIN, F.RAWCHARS | F.EXTMATCH, F.EXTMATCH | F.DOTMATCH | F.IGNORECASE]
+    fsets_f = [0, F.EXTMATCH, F.EXTMATCH | F.NEGATE | F.SPLIT | F.BRACE, F.EXTMATCH | F.FORCEWIN, F.RAWCHARS | F.EXTMATCH, F.EXTMATCH | F.DOTMATCH | F.IGNORECASE,
+               F.FORCEWIN | F.CASE | F.EXTMATCH, F.RAWCHARS | F.FORCEWIN]
     fsets_g = [G.EXTGLOB | G.GLOBSTAR, G.EXTGLOB | G.GLOBSTAR | G.FORCEWIN, G.EXTGLOB | G.GLOBSTARLONG | G.MATCHBASE | G.NEGATE | G.SPLIT | G.BRACE,
-               G.FORCEWIN | G.RAWCHARS, G.EXTGLOB | G.NODIR | G.NODOTDIR | G.DOTGLOB, G.FORCEWIN | G.EXTGLOB | G.SPLIT | G.MATCHBASE]
+               G.FORCEWIN | G.RAWCHARS, G.EXTGLOB | G.NODIR | G.NODOTDIR | G.DOTGLOB, G.FORCEWIN | G.EXTGLOB | G.SPLIT | G.MATCHBASE,
+               G.FORCEWIN | G.CASE | G.EXTGLOB | G.GLOBSTAR, G.FORCEWIN | G.CASE | G.REALPATH, G.RAWCHARS | G.BRACE | G.SPLIT]
     for t in texts:
         for tb in (t, t.encode('latin-1', 'ignore')):
             nm = (lambda s: s) if isinstance(tb, str) else (lambda s: s.encode())
             for f in fsets_f:
-                run(('fnmatch', tb, f), lambda: (F.translate(tb, flags=f), F.fnmatch(nm('a'), tb, flags=f), F.filter([nm('a')], tb, flags=f), F.compile(tb, flags=f).match(nm('b'))))
+                run(('fnmatch', tb, f), lambda: (F.translate(tb, flags=f), F.fnmatch(nm('a'), tb, flags=f), F.filter([nm('a')], tb, flags=f), F.compile(tb, flags=f).match(nm('b')),
+                                                 [re.compile(r) for r in F.translate(tb, flags=f)[0]]), tb, bool(f & F.RAWCHARS))
             for f in fsets_g:
                 run(('glob', tb, f), lambda: (G.translate(tb, flags=f), G.globmatch(nm('a/b'), tb, flags=f), G.globfilter([nm('a')], tb, flags=f),
-                                              G.Glob([tb], flags=f), [re.compile(r) for r in G.translate(tb, flags=f)[0]]))
-        for f in (0, P.EXTGLOB | P.GLOBSTAR):
-            run(('PurePosixPath.match', t, f), lambda: P.PurePosixPath('a/b').match(t, flags=f))
-            run(('PureWindowsPath.match', t, f), lambda: P.PureWindowsPath('a/b').globmatch(t, flags=f))
-        run(('WcMatch', t), lambda: W.WcMatch('/nonexistent-wcverif', t, t, W.RECURSIVE | W.EXTMATCH | W.BRACE | W.FILEPATHNAME | W.DIRPATHNAME | W.GLOBSTAR))
+                                              G.Glob([tb], flags=f), [re.compile(r) for r in G.translate(tb, flags=f)[0]]), tb, bool(f & G.RAWCHARS))
+        for f in (0, P.EXTGLOB | P.GLOBSTAR, P.CASE | P.EXTGLOB):
+            run(('PurePosixPath.match', t, f), lambda: P.PurePosixPath('a/b').match(t, flags=f), t, False, True)
+            run(('PureWindowsPath.match', t, f), lambda: P.PureWindowsPath('a/b').globmatch(t, flags=f), t, False, True)
+        run(('WcMatch', t), lambda: W.WcMatch('/nonexistent-wcverif', t, t, W.RECURSIVE | W.EXTMATCH | W.BRACE | W.FILEPATHNAME | W.DIRPATHNAME | W.GLOBSTAR), t)
+        run(('WcMatch raw', t), lambda: W.WcMatch('/nonexistent-wcverif', t, None, W.RECURSIVE | W.RAWCHARS), t, True)
     return bad, n
 
 
